@@ -13,6 +13,23 @@ package sipsp
 //@   ensures   err == ErrHdrOk || err == ErrHdrMoreBytes || err == ErrHdrNoCR
 //@   ensures   err == ErrHdrMoreBytes <==> (offs+1 >= len(buf) && (offs >= len(buf) || isCRLF(buf[offs])))
 //@   ensures   err == ErrHdrOk ==> isCRLF(buf[offs])
+//@   ensures   err == ErrHdrNoCR ==> offs < len(buf) && !isCRLF(buf[offs])
+//@   ensures   err == ErrHdrOk ==> (crl == 2 <==> (buf[offs] == '\r' && buf[offs+1] == '\n'))
+
+//@ func skipLWS(buf, offs, flags) (n, crl, err)
+//@   requires  bufOK(buf) && 0 <= offs && offs <= len(buf)
+//@   loop 0 "for ; i < len(buf); i++"
+//@     invariant offs <= i && i <= len(buf)
+//@     invariant forall(k, offs, i, isLWSc(buf[k]))
+//@     decreases len(buf) - i
+//@   ensures   offs <= n && n <= len(buf)
+//@   ensures   err == ErrHdrOk || err == ErrHdrEOH || err == ErrHdrMoreBytes
+//@   ensures   forall(k, offs, n, isLWSc(buf[k]))
+//@   ensures   err == ErrHdrOk ==> n < len(buf) && !isLWSc(buf[n]) && crl == 0
+//@   ensures   err == ErrHdrEOH ==> (n < len(buf) && isCRLF(buf[n]) && (crl == 1 || crl == 2) && n+crl <= len(buf) &&
+//@                 (flags&POptInputEndF == 0 ==> n+crl < len(buf) && !isWS(buf[n+crl]))) ||
+//@                 (flags&POptInputEndF != 0 && n == len(buf) && crl == 0)
+//@   ensures   err == ErrHdrMoreBytes ==> crl == 0 && (n == len(buf) || (isCRLF(buf[n]) && n+2 >= len(buf)))
 
 //@ func skipWS(buf, offs) (r)
 //@   requires  bufOK(buf) && 0 <= offs && offs <= len(buf)
@@ -23,3 +40,65 @@ package sipsp
 //@   ensures   offs <= r && r <= len(buf)
 //@   ensures   forall(k, offs, r, isWS(buf[k]))
 //@   ensures   r == len(buf) || !isWS(buf[r])
+
+//@ func skipToken(buf, offs) (r)
+//@   requires  bufOK(buf) && 0 <= offs && offs <= len(buf)
+//@   loop 0 "for ; offs < len(buf) && buf[offs] != ' ' && buf[offs] != '\t' && buf[offs] != '\r' && buf[offs] != '\n'; offs++"
+//@     invariant offs0 <= offs && offs <= len(buf)
+//@     invariant forall(k, offs0, offs, !isLWSc(buf[k]))
+//@     decreases len(buf) - offs
+//@   ensures   offs <= r && r <= len(buf)
+//@   ensures   forall(k, offs, r, !isLWSc(buf[k]))
+//@   ensures   r == len(buf) || isLWSc(buf[r])
+
+//@ func skipTokenDelim(buf, offs, delim) (r)
+//@   requires  bufOK(buf) && 0 <= offs && offs <= len(buf)
+//@   loop 0 "for ; offs < len(buf) && buf[offs] != ' ' && buf[offs] != '\t' && buf[offs] != '\r' && buf[offs] != '\n' && buf[offs] != delim; offs++"
+//@     invariant offs0 <= offs && offs <= len(buf)
+//@     invariant forall(k, offs0, offs, !isLWSc(buf[k]) && buf[k] != delim)
+//@     decreases len(buf) - offs
+//@   ensures   offs <= r && r <= len(buf)
+//@   ensures   forall(k, offs, r, !isLWSc(buf[k]) && buf[k] != delim)
+//@   ensures   r == len(buf) || isLWSc(buf[r]) || buf[r] == delim
+
+//@ func skipLine(buf, offs) (n, crl, err)
+//@   requires  bufOK(buf) && 0 <= offs && offs <= len(buf)
+//@   loop 0 "for ; offs < len(buf) && buf[offs] != '\n' && buf[offs] != '\r'; offs++"
+//@     invariant offs0 <= offs && offs <= len(buf)
+//@     invariant forall(k, offs0, offs, !isCRLF(buf[k]))
+//@     decreases len(buf) - offs
+//@   ensures   offs <= n && n <= len(buf)
+//@   ensures   err == ErrHdrOk || err == ErrHdrMoreBytes
+//@   ensures   err == ErrHdrOk ==> (crl == 1 || crl == 2) && offs <= n-crl && isCRLF(buf[n-crl]) && forall(k, offs, n-crl, !isCRLF(buf[k]))
+//@   ensures   err == ErrHdrOk ==> (crl == 2 <==> (buf[n-crl] == '\r' && buf[n-crl+1] == '\n'))
+//@   ensures   err == ErrHdrMoreBytes ==> crl == 0 && n+1 >= len(buf) && forall(k, offs, n, !isCRLF(buf[k]))
+
+//@ func ParseCSeqVal(buf, offs, pcs) (n, err)
+//@   requires  bufOK(buf) && 0 <= offs && offs <= len(buf) && pcs != nil && csOK(pcs, offs)
+//@   modifies  *pcs
+//@   loop 0 "for i < len(buf)"
+//@     invariant offs <= i && i <= len(buf) && csOK(pcs, i)
+//@     decreases len(buf) - i
+//@   ensures   0 <= n && n <= len(buf)
+//@   ensures   err == ErrHdrOk || err == ErrHdrMoreBytes ==> offs <= n && csOK(pcs, n)
+//@   ensures   within(pcs.CSeq, len(buf)) && within(pcs.Method, len(buf)) && within(pcs.V, len(buf))
+
+//@ func ParseUIntVal(buf, offs, pcl) (n, err)
+//@   requires  bufOK(buf) && 0 <= offs && offs <= len(buf) && pcl != nil && clOK(pcl, offs)
+//@   modifies  *pcl
+//@   loop 0 "for i < len(buf)"
+//@     invariant offs <= i && i <= len(buf) && clOK(pcl, i)
+//@     decreases len(buf) - i
+//@   ensures   0 <= n && n <= len(buf)
+//@   ensures   err == ErrHdrOk || err == ErrHdrMoreBytes ==> offs <= n && clOK(pcl, n)
+//@   ensures   within(pcl.SVal, len(buf))
+
+//@ func ParseCallIDVal(buf, offs, pcid) (n, err)
+//@   requires  bufOK(buf) && 0 <= offs && offs <= len(buf) && pcid != nil && ciOK(pcid, offs)
+//@   modifies  *pcid
+//@   loop 0 "for i < len(buf)"
+//@     invariant offs <= i && i <= len(buf) && ciOK(pcid, i)
+//@     decreases len(buf) - i
+//@   ensures   0 <= n && n <= len(buf)
+//@   ensures   err == ErrHdrOk || err == ErrHdrMoreBytes ==> offs <= n && ciOK(pcid, n)
+//@   ensures   within(pcid.CallID, len(buf))
